@@ -181,8 +181,8 @@ func (w *world) createReq(kind string, fault int) M {
 		data["milvus_connect_param"] = M{"uri": uri, "token": canaries["token"], "connect_timeout": timeout}
 	case "userpass":
 		data["milvus_connect_param"] = M{"uri": uri, "username": canaries["user"], "password": canaries["password"], "connect_timeout": timeout}
-	case "kafka":
-		data["kafka_connect_param"] = M{"address": "127.0.0.1:1", "topic": "cdc-topic", "enable_sasl": true,
+	case "kafka", "kafka_off":
+		data["kafka_connect_param"] = M{"address": "127.0.0.1:1", "topic": "cdc-topic", "enable_sasl": kind == "kafka",
 			"sasl": M{"username": canaries["sasl_user"], "password": canaries["sasl_pass"], "mechanisms": "PLAIN", "security_protocol": "SASL_PLAINTEXT"}}
 	default:
 		panic("kind " + kind)
@@ -196,7 +196,7 @@ func (w *world) createReq(kind string, fault int) M {
 			data["milvus_connect_param"].(M)["token"] = []interface{}{canaries["token"]}
 		case "userpass":
 			data["milvus_connect_param"].(M)["password"] = []interface{}{canaries["password"]}
-		case "kafka":
+		case "kafka", "kafka_off":
 			data["kafka_connect_param"].(M)["sasl"].(M)["password"] = []interface{}{canaries["sasl_pass"]}
 		}
 	}
